@@ -33,12 +33,16 @@ def show_hfield(f):
     return f"(f {G.hexname(f['name'])} {G.show_ty(f['ty'])} {1 if f['opt'] else 0} {tr})"
 
 
-def gen_history(rng, illegal=False):
+def gen_history(rng, illegal=False, wide=False):
+    """wide: 60-127 initial fields of one-byte types (the position byte of a FieldMadeOptional entry is a signed byte:
+    positions up to 127 in the initial chunk), steps that make late fields optional"""
     names = rng.sample(G.FIELD_NAMES, k=len(G.FIELD_NAMES))
-    n0 = rng.choice([0, 1, 2, 3, 4, 5])
+    if wide:
+        names = [f"w{k}" for k in range(140, 0, -1)] + names
+    n0 = rng.choice([0, 1, 2, 3, 4, 5]) if not wide else rng.choice([60, 64, 65, 66, 100, 126, 127])
     fields = []
     for _ in range(n0):
-        t = neutral_type(rng)
+        t = neutral_type(rng) if not wide else G.P(rng.choice(["u8", "i8", "bool"]))
         opt = rng.random() < 0.2
         if opt:
             t = ("opt", t)
@@ -66,8 +70,9 @@ def gen_history(rng, illegal=False):
             d = G.gen_value(rng, t, None, 0.4)
             fields.append(f)
             hsteps.append(f"(add {show_hfield(f)} {d})")
-        elif c < 0.6 and [f for f in written if not f["opt"] and f["ty"][0] != "opt"]:
-            f = rng.choice([f for f in written if not f["opt"] and f["ty"][0] != "opt"])
+        elif c < (0.6 if not wide else 0.9) and [f for f in written if not f["opt"] and f["ty"][0] != "opt"]:
+            cands = [f for f in written if not f["opt"] and f["ty"][0] != "opt"]
+            f = rng.choice(cands if not wide else cands[len(cands) // 2:])
             f["ty"] = ("opt", f["ty"])
             f["opt"] = True
             hsteps.append(f"(opt {G.hexname(f['name'])})")
@@ -96,7 +101,7 @@ def gen_cases(seed, tier, p_illegal=0.1, nh=None):
     out = []
     for h in range(nh):
         illegal = rng.random() < p_illegal
-        H, versions = gen_history(rng, illegal)
+        H, versions = gen_history(rng, illegal, wide=(h % 25 == 7))
         n = len(versions) - 1
         pairs = [(w, r) for w in range(n + 1) for r in range(n + 1)]
         if len(pairs) > 16:
